@@ -5,12 +5,15 @@ package main
 import (
 	"bytes"
 	"context"
+	"errors"
 	"fmt"
 	"io"
 	"net/http"
 	"net/url"
 	"strconv"
 	"strings"
+	"sync"
+	"time"
 
 	"github.com/opencontainers/go-digest"
 	ocispec "github.com/opencontainers/image-spec/specs-go/v1"
@@ -25,11 +28,60 @@ var opManifestDesc = ocispec.Descriptor{MediaType: ocispec.MediaTypeImageManifes
 // recTransport records every request and answers like a registry that holds
 // opManifest under every manifest reference and every blob digest.
 type recTransport struct {
-	reqs []*http.Request
+	mu      sync.Mutex
+	reqs    []*http.Request
+	dead    bool // set by the watchdog: every further request fails
+	runaway bool // more than maxRequests requests in one operation
+}
+
+// no operation of this harness needs more than a handful of requests: a pagination or retry loop
+// that does not terminate is cut here (and reported) instead of wedging the run
+const maxRequests = 40
+
+// requests returns what was recorded so far (the operation may still be running if it wedged)
+func (t *recTransport) requests() []*http.Request {
+	t.mu.Lock()
+	defer t.mu.Unlock()
+	return append([]*http.Request(nil), t.reqs...)
+}
+
+// guard runs one operation under a watchdog: an operation that does not return within the limit
+// is abandoned (its transport starts failing) and reported as an oracle failure by the caller.
+func (t *recTransport) guard(op func(ctx context.Context)) (hung bool) {
+	ctx, cancel := context.WithCancel(context.Background())
+	defer cancel()
+	done := make(chan struct{})
+	go func() {
+		defer close(done)
+		op(ctx)
+	}()
+	select {
+	case <-done:
+		return false
+	case <-time.After(10 * time.Second):
+		t.mu.Lock()
+		t.dead = true
+		t.mu.Unlock()
+		cancel()
+		select {
+		case <-done:
+		case <-time.After(2 * time.Second):
+		}
+		return true
+	}
 }
 
 func (t *recTransport) RoundTrip(req *http.Request) (*http.Response, error) {
+	t.mu.Lock()
+	if t.dead || len(t.reqs) >= maxRequests {
+		if !t.dead {
+			t.runaway = true
+		}
+		t.mu.Unlock()
+		return nil, errors.New("verif: transport closed")
+	}
 	t.reqs = append(t.reqs, req)
+	t.mu.Unlock()
 	if req.Body != nil {
 		io.Copy(io.Discard, req.Body)
 		req.Body.Close()
@@ -64,13 +116,16 @@ func (t *recTransport) RoundTrip(req *http.Request) (*http.Response, error) {
 // replay: variant forced
 var forcedVariant = -1
 
+// wedges counts operations cut by the watchdog
+var wedges int
+
 var opKinds = []string{"mresolve", "mfetchref", "tag", "pushref", "bresolve", "bfetchref"}
 
 // runOp: variant bit 0-1 = referrers capability (0 supported, 1 unsupported, 2/3 unknown: the
 // manifest has no subject, so every state must emit the same single PUT -- the unknown/unsupported
 // states go through the second push call site of pushWithIndexing), bit 2 = call the Repository
 // wrapper instead of the manifest store.
-func runOp(base registry.Reference, op string, plain bool, in string, variant int) []*http.Request {
+func runOp(base registry.Reference, op string, plain bool, in string, variant int) ([]*http.Request, bool) {
 	t := &recTransport{}
 	repo := &remote.Repository{Reference: base, PlainHTTP: plain, Client: &http.Client{Transport: t}}
 	switch variant & 3 {
@@ -81,47 +136,48 @@ func runOp(base registry.Reference, op string, plain bool, in string, variant in
 	}
 	wrapper := variant&4 != 0
 	run.Count(fmt.Sprintf("op_variant_%d", variant&7))
-	ctx := context.Background()
-	switch op {
-	case "mresolve":
-		if wrapper {
-			repo.Resolve(ctx, in)
-		} else {
-			repo.Manifests().Resolve(ctx, in)
+	hung := t.guard(func(ctx context.Context) {
+		switch op {
+		case "mresolve":
+			if wrapper {
+				repo.Resolve(ctx, in)
+			} else {
+				repo.Manifests().Resolve(ctx, in)
+			}
+		case "mfetchref":
+			var rc io.ReadCloser
+			var err error
+			if wrapper {
+				_, rc, err = repo.FetchReference(ctx, in)
+			} else {
+				_, rc, err = repo.Manifests().FetchReference(ctx, in)
+			}
+			if err == nil {
+				rc.Close()
+			}
+		case "tag":
+			if wrapper {
+				repo.Tag(ctx, opManifestDesc, in)
+			} else {
+				repo.Manifests().Tag(ctx, opManifestDesc, in)
+			}
+		case "pushref":
+			if wrapper {
+				repo.PushReference(ctx, opManifestDesc, bytes.NewReader(opManifest), in)
+			} else {
+				repo.Manifests().PushReference(ctx, opManifestDesc, bytes.NewReader(opManifest), in)
+			}
+		case "bresolve":
+			repo.Blobs().Resolve(ctx, in)
+		case "bfetchref":
+			if _, rc, err := repo.Blobs().FetchReference(ctx, in); err == nil {
+				rc.Close()
+			}
+		default:
+			panic("op " + op)
 		}
-	case "mfetchref":
-		var rc io.ReadCloser
-		var err error
-		if wrapper {
-			_, rc, err = repo.FetchReference(ctx, in)
-		} else {
-			_, rc, err = repo.Manifests().FetchReference(ctx, in)
-		}
-		if err == nil {
-			rc.Close()
-		}
-	case "tag":
-		if wrapper {
-			repo.Tag(ctx, opManifestDesc, in)
-		} else {
-			repo.Manifests().Tag(ctx, opManifestDesc, in)
-		}
-	case "pushref":
-		if wrapper {
-			repo.PushReference(ctx, opManifestDesc, bytes.NewReader(opManifest), in)
-		} else {
-			repo.Manifests().PushReference(ctx, opManifestDesc, bytes.NewReader(opManifest), in)
-		}
-	case "bresolve":
-		repo.Blobs().Resolve(ctx, in)
-	case "bfetchref":
-		if _, rc, err := repo.Blobs().FetchReference(ctx, in); err == nil {
-			rc.Close()
-		}
-	default:
-		panic("op " + op)
-	}
-	return t.reqs
+	})
+	return t.requests(), hung || t.runaway
 }
 
 // opCase runs one operation; want != "" is the generator's ground truth for the
@@ -132,7 +188,17 @@ func opCase(base registry.Reference, op string, plain bool, in, want string) {
 	if forcedVariant >= 0 {
 		variant = forcedVariant
 	}
-	reqs := runOp(base, op, plain, in, variant)
+	if wedges >= 3 { // the operations wedge systematically: reported three times, do not wait again
+		run.Count("op_skipped_after_hangs")
+		return
+	}
+	reqs, wedged := runOp(base, op, plain, in, variant)
+	if wedged {
+		wedges++
+		run.OracleFail(id, "op-hang", fmt.Sprintf("%s(%q) on %v did not return within 10 s or sent more than %d requests (%d recorded)", op, in, base, maxRequests, len(reqs)),
+			map[string]any{"op": "O", "kind": op, "plain": plain, "registry": base.Registry, "repository": base.Repository, "input": in, "want": want, "variant": strconv.Itoa(variant)})
+		return
+	}
 	var sb strings.Builder
 	sb.WriteString("REQS")
 	for _, q := range reqs {
@@ -232,65 +298,66 @@ func cleanForURL(s string) bool {
 	return s != ""
 }
 
-func runDescOp(base registry.Reference, op string, plain bool, d, a1 string, n int, wrapper bool) []*http.Request {
+func runDescOp(base registry.Reference, op string, plain bool, d, a1 string, n int, wrapper bool) ([]*http.Request, bool) {
 	t := &recTransport{}
 	repo := &remote.Repository{Reference: base, PlainHTTP: plain, Client: &http.Client{Transport: t}}
 	repo.SetReferrersCapability(true)
 	repo.TagListPageSize, repo.ReferrerListPageSize = n, n
-	ctx := context.Background()
 	mdesc := ocispec.Descriptor{MediaType: ocispec.MediaTypeImageManifest, Digest: digest.Digest(d), Size: int64(len(opManifest))}
 	bdesc := ocispec.Descriptor{MediaType: "application/octet-stream", Digest: digest.Digest(d), Size: int64(len(opManifest))}
-	switch op {
-	case "dmfetch":
-		var rc io.ReadCloser
-		var err error
-		if wrapper {
-			rc, err = repo.Fetch(ctx, mdesc)
-		} else {
-			rc, err = repo.Manifests().Fetch(ctx, mdesc)
+	hung := t.guard(func(ctx context.Context) {
+		switch op {
+		case "dmfetch":
+			var rc io.ReadCloser
+			var err error
+			if wrapper {
+				rc, err = repo.Fetch(ctx, mdesc)
+			} else {
+				rc, err = repo.Manifests().Fetch(ctx, mdesc)
+			}
+			if err == nil {
+				rc.Close()
+			}
+		case "dmdelete":
+			if wrapper {
+				repo.Delete(ctx, mdesc)
+			} else {
+				repo.Manifests().Delete(ctx, mdesc)
+			}
+		case "dbfetch":
+			var rc io.ReadCloser
+			var err error
+			if wrapper {
+				rc, err = repo.Fetch(ctx, bdesc)
+			} else {
+				rc, err = repo.Blobs().Fetch(ctx, bdesc)
+			}
+			if err == nil {
+				rc.Close()
+			}
+		case "dbdelete":
+			if wrapper {
+				repo.Delete(ctx, bdesc)
+			} else {
+				repo.Blobs().Delete(ctx, bdesc)
+			}
+		case "dreferrers":
+			repo.Referrers(ctx, mdesc, a1, func([]ocispec.Descriptor) error { return nil })
+		case "dmount":
+			repo.Mount(ctx, bdesc, a1, nil)
+		case "dbpush":
+			if wrapper {
+				repo.Push(ctx, bdesc, bytes.NewReader(opManifest))
+			} else {
+				repo.Blobs().Push(ctx, bdesc, bytes.NewReader(opManifest))
+			}
+		case "dtags":
+			repo.Tags(ctx, a1, func([]string) error { return nil })
+		default:
+			panic("descop " + op)
 		}
-		if err == nil {
-			rc.Close()
-		}
-	case "dmdelete":
-		if wrapper {
-			repo.Delete(ctx, mdesc)
-		} else {
-			repo.Manifests().Delete(ctx, mdesc)
-		}
-	case "dbfetch":
-		var rc io.ReadCloser
-		var err error
-		if wrapper {
-			rc, err = repo.Fetch(ctx, bdesc)
-		} else {
-			rc, err = repo.Blobs().Fetch(ctx, bdesc)
-		}
-		if err == nil {
-			rc.Close()
-		}
-	case "dbdelete":
-		if wrapper {
-			repo.Delete(ctx, bdesc)
-		} else {
-			repo.Blobs().Delete(ctx, bdesc)
-		}
-	case "dreferrers":
-		repo.Referrers(ctx, mdesc, a1, func([]ocispec.Descriptor) error { return nil })
-	case "dmount":
-		repo.Mount(ctx, bdesc, a1, nil)
-	case "dbpush":
-		if wrapper {
-			repo.Push(ctx, bdesc, bytes.NewReader(opManifest))
-		} else {
-			repo.Blobs().Push(ctx, bdesc, bytes.NewReader(opManifest))
-		}
-	case "dtags":
-		repo.Tags(ctx, a1, func([]string) error { return nil })
-	default:
-		panic("descop " + op)
-	}
-	return t.reqs
+	})
+	return t.requests(), hung || t.runaway
 }
 
 // descOpCase: d = descriptor digest, a1 = artifactType filter / source repository / last tag,
@@ -303,7 +370,17 @@ func descOpCase(base registry.Reference, op string, plain bool, d, a1 string, n 
 	if forcedVariant >= 0 {
 		wrapper = forcedVariant&4 != 0
 	}
-	reqs := runDescOp(base, op, plain, d, a1, n, wrapper)
+	if wedges >= 3 {
+		run.Count("op_skipped_after_hangs")
+		return
+	}
+	reqs, wedged := runDescOp(base, op, plain, d, a1, n, wrapper)
+	if wedged {
+		wedges++
+		run.OracleFail(id, "op-hang", fmt.Sprintf("%s(%q,%q,%d) on %v did not return within 10 s or sent more than %d requests (%d recorded)", op, d, a1, n, base, maxRequests, len(reqs)),
+			map[string]any{"op": "D", "kind": op, "plain": plain, "registry": base.Registry, "repository": base.Repository, "reference": d, "input": a1, "n": strconv.Itoa(n)})
+		return
+	}
 	var sb strings.Builder
 	sb.WriteString("REQS")
 	for _, q := range reqs {
